@@ -250,6 +250,48 @@ void profile_config(Gen &g) {
 	p.knobs["indep"] = "0"; p.knobs["fresh"] = "0";
 }
 
+
+// io: live objects after histories are written (LP/MPS; path, FILE*, reporter sink; plain/gz/bz2) and read back (C08, C09, C14)
+void profile_io(Gen &g, bool damage_heavy) {
+	Plan &p = g.p; Rng &r = g.r;
+	int nl = r.range(1, 2); for (int k = 0; k < nl; k++) p.lps.push_back(g.gen_lp(k, 6, 6));
+	p.ops.push_back(g.gen_create(0, nl));
+	int rounds = r.range(2, 6); int nfile = 0;
+	auto io_faults = [&](Op &o, bool writing) {
+		if (!g.faults) { if (r.chance(1, 3)) { Fault f; f.kind = "io.chunk"; f.a["n"] = std::to_string(r.range(1, 64)); o.faults.push_back(f); } return; }
+		int d = (int)r.below(10);
+		if (d < 2) { Fault f; f.kind = "io.open_fail"; f.a["e"] = std::to_string(r.below(5)); o.faults.push_back(f); }
+		else if (d < 5 && writing) { Fault f; f.kind = std::vector<std::string>{"io.write_err", "io.short_write", "io.close_err"}[r.below(3)]; f.a["at"] = std::to_string(r.below(600)); o.faults.push_back(f); }
+		else if (d < 5) { Fault f; f.kind = "io.read_eio"; f.a["at"] = std::to_string(r.below(600)); o.faults.push_back(f); }
+		else if (d < 7) { Fault f; f.kind = "io.chunk"; f.a["n"] = std::to_string(r.range(1, 64)); o.faults.push_back(f); }
+	};
+	for (int k = 0; k < rounds; k++) {
+		int ne = r.range(0, 4); for (int e = 0; e < ne; e++) p.ops.push_back(g.gen_edit(0));
+		if (r.chance(1, 3)) { Op s = g.gen_solve(0, ""); if (g.faults && r.chance(1, 3)) g.add_interruption(s); p.ops.push_back(s); }
+		int d = (int)r.below(10);
+		if (d < 6 || damage_heavy) {
+			Op w = g.mk(0, "write"); g.seti(w, "o", r.below(4)); g.set(w, "fmt", r.chance(1, 2) ? "LP" : "MPS"); g.set(w, "via", std::vector<std::string>{"path", "path", "file", "reporter"}[r.below(4)]);
+			g.set(w, "path", strf("f%d", nfile++)); g.seti(w, "comp", r.below(3)); io_faults(w, true); p.ops.push_back(w);
+			if (damage_heavy || (g.faults && r.chance(1, 3))) { int nd = r.range(1, 2); for (int t = 0; t < nd; t++) { Op dm = g.mk(0, "damage"); g.seti(dm, "pick", r.below(8)); g.set(dm, "kind", std::vector<std::string>{"torn", "flip", "zero_tail", "block_drop", "block_dup", "token", "token", "torn"}[r.below(8)]); g.seti(dm, "at", r.below(100000)); g.seti(dm, "len", r.below(56)); g.seti(dm, "bit", r.below(8)); p.ops.push_back(dm); } }
+			Op rd = g.mk(0, "read"); g.seti(rd, "pick", r.chance(1, 5) ? (long)r.below(6) : -1); g.set(rd, "via", r.chance(1, 3) ? "reader" : "path"); io_faults(rd, false); p.ops.push_back(rd);
+			if (r.chance(1, 2)) {   // chain: write the re-read object in the other format and read again
+				Op w2 = g.mk(0, "write"); g.seti(w2, "o", -1); g.set(w2, "fmt", w.s("fmt") == "LP" ? "MPS" : "LP"); g.set(w2, "via", "path"); g.set(w2, "path", strf("f%d", nfile++)); g.seti(w2, "comp", r.below(3)); p.ops.push_back(w2);
+				Op r2 = g.mk(0, "read"); g.seti(r2, "pick", -1); g.set(r2, "via", "path"); p.ops.push_back(r2);
+			}
+		} else if (d < 8 && !damage_heavy) {
+			Op b = g.mk(0, "wbasis"); g.seti(b, "o", r.below(4)); g.set(b, "src", r.chance(1, 2) ? "own" : "given"); g.seti(b, "k", r.below(8)); g.set(b, "path", strf("b%d", nfile++)); g.seti(b, "comp", r.chance(1, 4) ? r.below(3) : 0); io_faults(b, true); p.ops.push_back(b);
+			if (g.faults && r.chance(1, 4)) { Op dm = g.mk(0, "damage"); g.seti(dm, "pick", r.below(8)); g.set(dm, "kind", std::vector<std::string>{"torn", "flip", "zero_tail"}[r.below(3)]); g.seti(dm, "at", r.below(100000)); p.ops.push_back(dm); }
+			Op rb = g.mk(0, "rbasis"); g.seti(rb, "o", b.i("o")); g.seti(rb, "pick", r.below(8)); g.set(rb, "how", r.chance(1, 2) ? "read" : "load"); if (r.chance(1, 12)) g.seti(rb, "missing", 1); io_faults(rb, false); p.ops.push_back(rb);
+			if (r.chance(1, 2)) p.ops.push_back(g.gen_solve(0, ""));
+		} else {
+			Op f = g.mk(0, "foreign"); if (r.chance(1, 2)) g.seti(f, "o", r.below(4)); else g.seti(f, "lp", r.below(nl)); g.set(f, "fmt", r.chance(1, 2) ? "LP" : "MPS"); g.set(f, "path", strf("f%d", nfile++)); g.seti(f, "comp", r.below(3)); g.seti(f, "style", r.below(1000)); p.ops.push_back(f);
+			if (damage_heavy || (g.faults && r.chance(1, 2))) { Op dm = g.mk(0, "damage"); g.seti(dm, "pick", r.below(8)); g.set(dm, "kind", std::vector<std::string>{"torn", "flip", "token", "token", "block_dup"}[r.below(5)]); g.seti(dm, "at", r.below(100000)); g.seti(dm, "len", r.below(56)); g.seti(dm, "bit", r.below(8)); p.ops.push_back(dm); }
+			Op rd = g.mk(0, "read"); g.seti(rd, "pick", -1); g.set(rd, "via", r.chance(1, 3) ? "reader" : "path"); io_faults(rd, false); p.ops.push_back(rd);
+		}
+	}
+	p.knobs["indep"] = "0"; p.knobs["fresh"] = "0";
+}
+
 }   // namespace
 
 Plan make_plan(const std::string &profile, uint64_t seed, const Args &opts) {
@@ -261,6 +303,8 @@ Plan make_plan(const std::string &profile, uint64_t seed, const Args &opts) {
 	else if (profile == "copy") profile_hist(g, false, true);
 	else if (profile == "solve") profile_solve(g);
 	else if (profile == "config") profile_config(g);
+	else if (profile == "io") profile_io(g, false);
+	else if (profile == "reader") profile_io(g, true);
 	else profile_hist(g, false, false);
 	for (auto &kv : opts) if (starts_with(kv.first, "knob.")) p.knobs[kv.first.substr(5)] = kv.second;
 	{ auto it = opts.find("avoid"); if (it != opts.end() && !it->second.empty()) p.knobs["avoid"] = it->second; }
